@@ -7,6 +7,7 @@ import (
 	"errors"
 	"fmt"
 	"io"
+	"math"
 	"net"
 	"runtime"
 	"sort"
@@ -868,7 +869,9 @@ func (multi *MultiEpoch) processSlotTransactions(
 		return nil
 	} else {
 
-		const batchSize = 100
+		// No cap on the number of transactions per account: the stream must carry every
+		// matching transaction of the (already bounded) slot range, like the block scan does.
+		const batchSize = math.MaxInt
 		buffer := newTxBuffer(uint64(startSlot), uint64(endSlot))
 		errChan := make(chan error, len(filter.AccountInclude))
 
